@@ -3,11 +3,12 @@
 usage: confirm_seed.py <PROP> <k> [--crate <crate>] : uses /tmp/wt-<PROP> and /tmp/seed-<PROP>/m<k>.{diff,_demo.rs,_notes.md}"""
 import json, os, re, shutil, subprocess, sys, time
 prop, k = sys.argv[1], sys.argv[2]
+pre = sys.argv[sys.argv.index('--prefix') + 1] if '--prefix' in sys.argv else 'm'
 wt = '/tmp/wt-%s' % prop
 seed = '/tmp/seed-%s' % prop
-diff = '%s/m%s.diff' % (seed, k)
-demo = '%s/m%s_demo.rs' % (seed, k)
-notes = '%s/m%s_notes.md' % (seed, k)
+diff = '%s/%s%s.diff' % (seed, pre, k)
+demo = '%s/%s%s_demo.rs' % (seed, pre, k)
+notes = '%s/%s%s_notes.md' % (seed, pre, k)
 env = dict(os.environ, CARGO_NET_OFFLINE='true', CARGO_TARGET_DIR=wt + '/target')
 def sh(cmd, **kw):
     return subprocess.run(cmd, shell=True, cwd=wt, env=env, capture_output=True, text=True, **kw)
@@ -24,7 +25,7 @@ if '--crate' in sys.argv:
 else:
     m = re.search(r'^\+\+\+ b/([^/]+)/', open(diff).read(), re.M)
     crate = m.group(1)
-meta = {'property': prop, 'mutant': 'm%s' % k, 'crate_of_demo': crate}
+meta = {'property': prop, 'mutant': '%s%s' % (pre, k), 'crate_of_demo': crate}
 r = sh('git apply %s' % diff)
 if r.returncode != 0:
     print('patch does not apply', r.stderr); sys.exit(1)
@@ -49,7 +50,7 @@ if has_demo:
     ok = ok and meta['demo_with_change']['exit'] != 0 and meta['demo_without_change']['exit'] == 0
 meta['confirmed'] = ok
 meta['wall_s'] = round(time.time() - t0, 1)
-out = '/verif/seeded/%s-m%s' % (prop, k)
+out = '/verif/seeded/%s-%s%s' % (prop, pre, k)
 os.makedirs(out, exist_ok=True)
 shutil.copy(diff, out + '/patch.diff')
 if has_demo:
